@@ -340,6 +340,70 @@ def unary_job(arg):
     return rep
 
 
+LAYOUT_DECORATIONS = [
+    ("plain", '    """Summary line."""\n    # a comment\n'),
+    ("docstring-with-U+2028-twice", '    """Summary\u2028second line\u2028third line."""\n'),
+    ("docstring-with-U+2029-and-NEL", '    """Summary\u2029second paragraph\x85third."""\n'),
+    ("comment-with-two-form-feeds", "    # page one \x0c page two \x0c page three\n"),
+    ("comment-with-vertical-tabs", "    # a \x0b b \x0b c \x0b d\n"),
+    ("string-with-FS-GS-RS", "    sep = 'a\x1cb\x1dc\x1ed'\n"),
+    ("four-docstring-lines-with-CR-free-text", '    """Line one.\n\n    Line three.\n    Line four.\n    """\n'),
+]
+# (argument text of the kept call in version A, value it gives, the same for version B)
+LAYOUT_BINDINGS = [("[1, 2]", ("total", [1, 2]), "[1, 2, 40]", ("total", [1, 2, 40])), ("-1", ("total", -1), "-25", ("total", -25)), ("(3, OFFSET)", ("total", (3, 7)), "(4, OFFSET)", ("total", (4, 7))),
+                   ("{'k': 1}", ("total", {"k": 1}), "{'k': 2}", ("total", {"k": 2}))]
+
+
+def layout_job(arg):
+    """Kept calls with non-constant arguments inside functions whose text holds characters that some text APIs treat
+    as line boundaries (form feed, VT, FS/GS/RS, NEL, U+2028/2029) - in docstrings, comments and string literals before
+    the call: after the bound value is edited (module rewritten and reloaded) the call returns what plain execution returns."""
+    scratch, idx = arg
+    import dds
+
+    rep = core.Report("C13")
+    d = os.path.join(scratch, "c13l_%d" % idx)
+    pkg = "c13lpkg%d" % idx
+    os.makedirs(os.path.join(d, pkg))
+    open(os.path.join(d, pkg, "__init__.py"), "w").write("")
+    sys.path.insert(0, d)
+    dds.accept_module(pkg)
+    dds.set_store("memory")
+
+    def src(which):
+        out = "import dds\n\nOFFSET = 7\n\n\ndef total(v):\n    return (\"total\", v)\n"
+        for di, (dn, deco) in enumerate(LAYOUT_DECORATIONS):
+            for bi, b in enumerate(LAYOUT_BINDINGS):
+                out += "\n\ndef report_%d_%d():\n%s    r = dds.keep(\"/c13l/p%d_%d\", total,\n                 %s)\n    return r\n" % (di, bi, deco, di, bi, b[0 if which == "A" else 2])
+        return out
+
+    mod = None
+    for which in ("A", "B", "A"):
+        with open(os.path.join(d, pkg, "m.py"), "w", encoding="utf-8", newline="") as f:
+            f.write(src(which))
+        importlib.invalidate_caches()
+        import linecache
+
+        linecache.checkcache()
+        mod = importlib.import_module(pkg + ".m") if mod is None else importlib.reload(mod)
+        for di, (dn, deco) in enumerate(LAYOUT_DECORATIONS):
+            for bi, b in enumerate(LAYOUT_BINDINGS):
+                want = b[1 if which == "A" else 3]
+                rep.evaluations += 1
+                rep.count("calls_source")
+                rep.count("calls_in_decorated_text")
+                try:
+                    got = dds.eval(getattr(mod, "report_%d_%d" % (di, bi)))
+                except BaseException as e:
+                    rep.violate("kept call inside a function with %s raised %s: %s" % (dn, type(e).__name__, str(e)[:120]), {"layout": dn, "binding": b[0]}, mechanism="keep-raised")
+                    continue
+                if repr(got) != repr(want):
+                    rep.violate("kept call inside a function with %s: after the bound value was edited to %s the call returned %r, plain execution gives %r" % (dn, b[0 if which == "A" else 2], got, want),
+                                {"layout": dn, "binding": b[0], "version": which}, mechanism="bound-literal-edit-not-seen")
+    rep.nontriv(("c13layout", idx))
+    return rep
+
+
 CLASS_SRC = """import dataclasses
 import dds
 
@@ -468,7 +532,7 @@ def run(tier, seed):
                 bs = list(dict.fromkeys(dflt + allb[:k]))
             jobs.append((shape, idx, bs, scratch))
         results = core.fork_map(job, jobs, timeout=600)
-        nres = core.fork_map(lambda j: {"c": class_job, "n": nested_job, "u": unary_job}[j[0]](j[1]), [("n", (scratch, 0)), ("c", (scratch, 1)), ("u", (scratch, 2))], timeout=600)
+        nres = core.fork_map(lambda j: {"c": class_job, "n": nested_job, "u": unary_job, "l": layout_job}[j[0]](j[1]), [("n", (scratch, 0)), ("c", (scratch, 1)), ("u", (scratch, 2)), ("l", (scratch, 3))], timeout=600)
     for r in nres:
         if isinstance(r, core.JobFailed):
             rep.inconclusive.append("nested job: %r" % (r,))
